@@ -42,7 +42,6 @@ fn payload_keys_plain(pv: &PV) -> bool {
     match pv {
         PV::Seq(s) => s.iter().all(payload_keys_plain),
         PV::Map(m) => m.iter().all(|(k, v)| plain(k) && payload_keys_plain(v)),
-        PV::Str(s) => !s.contains('`'),
         _ => true,
     }
 }
@@ -196,38 +195,42 @@ fn check_message(flavour: &str, msg: &str, kind: &RKind, loc: &Path, payload_see
             _ => {}
         }
     }
-    // remove the detail message / quoted facts, what remains in backticks is the path
+    // remove the detail message and every quoted fact (exact text); what is left in backticks is the path
     let mut rest = msg.to_string();
     match kind {
         RKind::Unexpected { msg: m } => rest = rest.replacen(m.as_str(), "", 1),
         RKind::Foreign(p) => rest = rest.replacen(&ProbeErr(p.clone()).to_string(), "", 1),
         _ => {}
     }
-    if fx.suggestion.is_some() {
-        if let Some(i) = rest.find("did you mean `") {
-            if let Some(j) = rest[i + 14..].find('`') {
-                rest.replace_range(i..i + 14 + j + 1, "");
-            }
+    let mut strip: Vec<String> = fx.strip.clone();
+    if let Some(Some(s)) = &fx.suggestion {
+        strip.push(s.clone());
+    }
+    strip.sort_by_key(|s| std::cmp::Reverse(s.len()));
+    for f in &strip {
+        // each fact once per occurrence in the message (alternatives may repeat the key)
+        while let Some(i) = rest.find(&format!("`{f}`")) {
+            rest.replace_range(i..i + f.len() + 2, "<fact>");
         }
     }
-    // the path is the first backticked token after the position words; facts come after ':' or as the named field
     let want = if json_flavour { render_json(loc) } else { render_query(loc) };
     let quoted: Vec<String> = {
         let mut v = vec![];
         let mut it = rest.split('`');
         it.next();
         while let Some(q) = it.next() {
-            v.push(q.to_string());
-            if it.next().is_none() {
-                break;
+            if it.clone().next().is_none() {
+                break; // unbalanced tail
             }
+            v.push(q.to_string());
+            it.next();
         }
         v
     };
     if loc.is_empty() {
         // nothing path-shaped may be named: every quoted segment must be one of the facts
         for q in &quoted {
-            if !fx.strip.iter().any(|s| s == q) && !fx.must.iter().any(|s| s.trim_matches('`') == q) {
+            if q.starts_with('.') || q.starts_with('[') || plain(q) {
                 return Err((
                     format!("C14|{flavour}|path-at-root|{cls}"),
                     format!("the first keep-going report is at the payload root, but the message {msg:?} names `{q}`"),
@@ -235,12 +238,17 @@ fn check_message(flavour: &str, msg: &str, kind: &RKind, loc: &Path, payload_see
             }
         }
     } else {
-        if !rest.contains(&format!("`{want}`")) {
+        // the path must be quoted in the message - once more than the number of facts that happen to read the same
+        let needle = format!("`{want}`");
+        let same_as_fact = strip.iter().filter(|f| **f == want).count();
+        let occurrences = msg.matches(needle.as_str()).count();
+        if occurrences < 1 + same_as_fact {
             return Err((
                 format!("C14|{flavour}|path-missing-or-wrong|{cls}"),
                 format!("message {msg:?} does not contain the path `{want}` of the first keep-going report ({} at {})", dv_core::trace::show_kind(kind), path_str(loc)),
             ));
         }
+        let json_flavour = json_flavour && same_as_fact == 0;
         if json_flavour {
             // read the path back from the message and resolve it in the payload
             let path_txt = quoted.iter().find(|q| q.starts_with('.') || q.starts_with('['));
@@ -332,7 +340,7 @@ pub fn run(tier: Tier) -> i32 {
     let reg = registry();
     let eligible: Vec<usize> =
         reg.all().into_iter().filter(|i| reg.entries[*i].json_err.is_some() && all_keys_plain(&reg.entries[*i].ty, 0)).collect();
-    let gen = case_gen(reg.clone(), eligible, GenOpts { plain_text: true, blind: 0.05, min_fault: 0.1, ..GenOpts::default() });
+    let gen = case_gen(reg.clone(), eligible, GenOpts { plain_keys: true, blind: 0.05, min_fault: 0.1, ..GenOpts::default() });
     drive(
         "C14",
         tier,
